@@ -1,0 +1,90 @@
+//go:build verif
+
+// Package simhook holds the seams used by the deterministic-simulation checks kept
+// outside this repository. This file is compiled only with the build tag `verif`.
+package simhook
+
+import "github.com/sirupsen/logrus"
+
+// Enabled reports whether the simulation hooks are compiled in.
+const Enabled = true
+
+// The simulator assigns these; nil means "behave as shipped".
+var (
+	UIDFunc           func() (string, bool)
+	LoggerFunc        func(*logrus.Logger)
+	ServiceClientFunc func(addr string) interface{}
+	MQTTFunc          func(opts interface{}) interface{}
+	YieldFunc         func(site string)
+	BeforeLockFunc    func(mu interface{}, write bool)
+	WillSpawnFunc     func() uint64
+	GoStartFunc       func(id uint64)
+	GoEndFunc         func()
+)
+
+// UID lets a simulator supply client and datatype ids.
+func UID() (string, bool) {
+	if UIDFunc != nil {
+		return UIDFunc()
+	}
+	return "", false
+}
+
+// Logger lets a simulator reconfigure every logger that is created.
+func Logger(l *logrus.Logger) {
+	if LoggerFunc != nil {
+		LoggerFunc(l)
+	}
+}
+
+// ServiceClient lets a simulator supply the model.OrdaServiceClient used for addr.
+func ServiceClient(addr string) interface{} {
+	if ServiceClientFunc != nil {
+		return ServiceClientFunc(addr)
+	}
+	return nil
+}
+
+// MQTT lets a simulator supply the mqtt.Client built from the given *mqtt.ClientOptions.
+func MQTT(opts interface{}) interface{} {
+	if MQTTFunc != nil {
+		return MQTTFunc(opts)
+	}
+	return nil
+}
+
+// Yield marks a scheduling point of the client library.
+func Yield(site string) {
+	if YieldFunc != nil {
+		YieldFunc(site)
+	}
+}
+
+// BeforeLock is called right before a blocking lock acquisition.
+func BeforeLock(mu interface{}, write bool) {
+	if BeforeLockFunc != nil {
+		BeforeLockFunc(mu, write)
+	}
+}
+
+// WillSpawn is called by the parent right before a `go` statement.
+func WillSpawn() uint64 {
+	if WillSpawnFunc != nil {
+		return WillSpawnFunc()
+	}
+	return 0
+}
+
+// GoStart is called first thing in a spawned goroutine.
+func GoStart(id uint64) {
+	if GoStartFunc != nil {
+		GoStartFunc(id)
+	}
+}
+
+// GoEnd is called last thing in a spawned goroutine.
+func GoEnd() {
+	if GoEndFunc != nil {
+		GoEndFunc()
+	}
+}
